@@ -35,7 +35,7 @@ def _cases() -> List[dict]:
 
 def plan(tier: str) -> dict:
     return {
-        "runs": 6000 if tier == "quick" else 100000,
+        "runs": 6000 if tier == "quick" else 300000,
         "budget": 150 if tier == "quick" else 900,
         "cases": _cases(),
         "chunk": 10,
